@@ -694,6 +694,33 @@ Proof.
   remember ((bytes + ps - 1) / ps) as q. remember ((bytes + ps - 1) mod ps) as r. split; intros H; nia.
 Qed.
 
+(* the constructors with the implicit page size: with_len(len) is the EMPTY set over ceil(len / 4096) pages - the
+   least k with k * 4096 >= len, so a trailing partial page is tracked - and satisfies the invariant;
+   default() is the empty bitmap of zero pages (which enlarge then grows: C09_enlarge) *)
+Lemma with_len_lemma : forall len, len < W64 ->
+  bm_with_len len = bm_new len 4096 /\
+  bm_inv (bm_with_len len) /\ bm_len (bm_with_len len) = div_ceil len 4096 /\
+  bm_get_byte_size (bm_with_len len) = len /\
+  (forall k, k * 4096 >= len <-> bm_len (bm_with_len len) <= k) /\
+  (forall p, abs_pages (bm_with_len len) p = false) /\
+  (forall i, i < len -> i / 4096 < bm_len (bm_with_len len)).
+Proof.
+  intros len Hl. split; [reflexivity|]. unfold bm_with_len, host_page.
+  destruct (new_lemma len 4096 ltac:(lia) Hl) as (A & B & C & D & E).
+  split; [exact A|]. split; [exact B|]. split; [exact C|]. split; [exact D|]. split; [exact E|].
+  intros i Hi. destruct (N.lt_ge_cases (i / 4096) (bm_len (bm_new len 4096))) as [L|L]; [exact L|exfalso].
+  apply D in L. pose proof (N.mul_div_le i 4096 ltac:(lia)). nia.
+Qed.
+
+Lemma default_lemma :
+  bm_default = bm_new 0 4096 /\ bm_inv bm_default /\ bm_len bm_default = 0 /\ bm_get_byte_size bm_default = 0 /\
+  forall p, abs_pages bm_default p = false.
+Proof.
+  split; [reflexivity|]. unfold bm_default.
+  destruct (new_lemma 0 4096 ltac:(lia) ltac:(rewrite W64_val; lia)) as (A & B & C & _ & E).
+  split; [exact A|]. split; [rewrite B; reflexivity|]. split; [exact C|exact E].
+Qed.
+
 Lemma rng_set_iff (old hit : bool) : rng_effect true old hit = true <-> old = true \/ hit = true.
 Proof. cbn [rng_effect]. apply orb_true_iff. Qed.
 Lemma rng_reset_iff (old hit : bool) : rng_effect false old hit = true <-> old = true /\ hit <> true.
